@@ -7,6 +7,8 @@ import (
 	"testing"
 
 	"cosmossdk.io/math"
+	cryptotypes "github.com/cosmos/cosmos-sdk/crypto/types"
+	banktypes "github.com/cosmos/cosmos-sdk/x/bank/types"
 	sdk "github.com/cosmos/cosmos-sdk/types"
 	"pgregory.net/rapid"
 
@@ -40,8 +42,12 @@ func newC04World() *c04World {
 
 // deposit sends an L1 deposit and relays it; it reports whether L1 accepted it.
 func (w *c04World) deposit(to string, coin sdk.Coin) (accepted bool, err error) {
+	return w.depositWithData(to, coin, nil)
+}
+
+func (w *c04World) depositWithData(to string, coin sdk.Coin, data []byte) (accepted bool, err error) {
 	tc := w.tc
-	_, p := tc.l1Deposit(tc.users[0], to, coin, nil)
+	_, p := tc.l1Deposit(tc.users[0], to, coin, data)
 	if p == nil {
 		return false, nil // rejected at the entry point: always acceptable
 	}
@@ -53,6 +59,13 @@ func (w *c04World) deposit(to string, coin sdk.Coin) (accepted bool, err error) 
 	for _, x := range parseWithdrawalEvents(r.Events) {
 		w.records = append(w.records, x)
 		w.kinds[x.Seq] = "refund"
+		if x.To != p.From || x.From != p.To {
+			w.kinds[x.Seq] = "user" // recorded by the deposit's hook
+		}
+	}
+	// the withdrawals the L2 recorded are the ones it numbered: the counter and the announced events must agree
+	if next, _ := tc.l2.K.GetNextL2Sequence(tc.l2.Ctx); next != uint64(len(w.records)+1) {
+		return true, fmt.Errorf("L2 has numbered %d withdrawals but announced %d: a recorded withdrawal without an event can never be proven on L1", next-1, len(w.records))
 	}
 	return true, nil
 }
@@ -163,7 +176,27 @@ func TestC04Rapid(t *testing.T) {
 			if nOps > 12 {
 				amt = math.NewInt(int64(rapid.IntRange(1, 1000).Draw(rt, "small")))
 			}
-			switch drawWeighted(rt, "op", []weighted{{"deposit-withdraw", 6}, {"refund", 4}, {"withdraw-more", 2}}) {
+			switch drawWeighted(rt, "op", []weighted{{"deposit-withdraw", 6}, {"refund", 4}, {"withdraw-more", 2}, {"hook-withdraw", 3}}) {
+			case "hook-withdraw":
+				// the withdrawal is recorded by a deposit hook signed by the recipient, before or after another hook message
+				user := tc.users[rapid.IntRange(1, 4).Draw(rt, "huser")]
+				small := math.NewInt(int64(rapid.IntRange(10, 1000).Draw(rt, "hamt")))
+				tc.l2.Fund(user.Addr, coinOf("stake", 5))
+				num, seq := accInfo(tc.l2, user)
+				l2d := tcL2Denom(tc, denom)
+				wmsg := opchildtypes.NewMsgInitiateTokenWithdrawal(user.Str, c04Recipient(rt, tc), sdk.NewCoin(l2d, math.NewInt(3)))
+				smsg := banktypes.NewMsgSend(user.Addr, tc.users[1].Addr, sdk.NewCoins(sdk.NewCoin(l2d, math.NewInt(2))))
+				msgs := []sdk.Msg{wmsg, smsg}
+				if rapid.Bool().Draw(rt, "withdrawLast") {
+					msgs = []sdk.Msg{smsg, wmsg}
+				}
+				data := signTx(tc.l2, msgs, []cryptotypes.PrivKey{user.Priv}, []uint64{num}, []uint64{seq}, henv.L2ChainID)
+				acc, err := w.depositWithData(user.Str, sdk.Coin{Denom: denom, Amount: small}, data)
+				if err != nil {
+					fail(err)
+				}
+				log = append(log, fmt.Sprintf("deposit %s%s with a hook that withdraws 3: accepted by L1=%v", small, truncStr(denom, 12), acc))
+				c.Class("withdrawal-recorded-by-a-deposit-hook")
 			case "deposit-withdraw":
 				user := tc.users[rapid.IntRange(1, 4).Draw(rt, "user")]
 				acc, err := w.deposit(user.Str, sdk.Coin{Denom: denom, Amount: amt})
